@@ -87,6 +87,12 @@ func (h *Sources) Undo() {
 		return
 	}
 
+	// The current state might not have been saved yet (typed characters are
+	// not): keep it before leaving it, or redo could never bring it back.
+	if line.pos == 0 && line.items[len(line.items)-1].line != string(*h.line) {
+		line.items = append(line.items, undoItem{line: string(*h.line), pos: h.cursor.Pos()})
+	}
+
 	var undo undoItem
 
 	// When undoing, we loop through preceding undo items
